@@ -25,6 +25,11 @@ func main() {
 		for _, id := range h.IDs() {
 			fmt.Println(id)
 		}
+	case "c15child":
+		seed, _ := strconv.ParseUint(os.Args[2], 10, 64)
+		i, _ := strconv.Atoi(os.Args[3])
+		noise, _ := strconv.Atoi(os.Args[4])
+		checks.C15Child(seed, i, noise)
 	case "corpus":
 		checks.CorpusReport(len(os.Args) > 2)
 	case "run":
